@@ -87,6 +87,21 @@ def api_battery(lengths):
         else:
             r = bytes(0x61 + (i % 26) for i in range(n))
             yield ('close(1000, %d-byte reason)' % n, lambda ws, r=r: ws.close(1000, r), 8, ValueError)
+    # text reasons: the limit is on the UTF-8 form (123 bytes), not on the number of characters
+    for ch in ('\xe9', '\u20ac', '\U0001f600'):
+        w = len(ch.encode('utf-8'))
+        for nbytes in (123 - (123 % w), 123 - (123 % w) + w, 122 + w if (122 + w) % w == 0 else None):
+            if nbytes is None:
+                continue
+            pad = ''
+            reason = ch * (nbytes // w)
+            enc = reason.encode('utf-8')
+            if len(enc) <= 123:
+                yield ('close(1001, str of %d chars = %d UTF-8 bytes)' % (len(reason), len(enc)), lambda ws, reason=reason: ws.close(1001, reason), 8, struct.pack('!H', 1001) + enc)
+            else:
+                yield ('close(1001, str of %d chars = %d UTF-8 bytes)' % (len(reason), len(enc)), lambda ws, reason=reason: ws.close(1001, reason), 8, ValueError)
+        reason = 'a' * 122 + ch
+        yield ('close(1001, str of 123 chars = %d UTF-8 bytes)' % len(reason.encode('utf-8')), lambda ws, reason=reason: ws.close(1001, reason), 8, ValueError)
     for bad, what in ((b'x', 'bytes'), (bytearray(b'x'), 'bytearray'), (5, 'int'), (None, 'None'), (object(), 'object')):
         yield ('send_text(%s)' % what, lambda ws, bad=bad: ws.send_text(bad), 1, TypeError)
     for bad, what in (('x', 'str'), (bytearray(b'x'), 'bytearray'), (5, 'int'), (None, 'None')):
